@@ -59,6 +59,11 @@ def run_one(spec, tier="quick"):
         if "elfscan failed" in out:
             return spec, "broken", "mutant does not compile: " + out[-600:]
         lines = [l for l in out.splitlines() if l.startswith(spec["prop"] + " rule=")]
+        if spec.get("benign"):
+            # behaviour-preserving edit: the check must stay silent
+            if r.returncode == 0 and not lines:
+                return spec, "silent-ok", "no alarm on a behaviour-preserving edit"
+            return spec, "FALSE-ALARM", (lines[0][:300] if lines else out[-300:])
         hit = [l for l in lines if spec["expect"] in l]
         if r.returncode == 1 and hit:
             return spec, "caught", hit[0][:300]
@@ -109,7 +114,7 @@ def main():
     with ThreadPoolExecutor(max_workers=a.jobs) as ex:
         for spec, status, msg in ex.map(fn, specs):
             print("%-4s %-34s %-16s %s" % (spec["prop"], spec["id"], status, msg.replace("\n", " ")[:260]))
-            if status in ("MISSED", "broken", "TESTS-CHANGE"):
+            if status in ("MISSED", "broken", "TESTS-CHANGE", "FALSE-ALARM"):
                 bad += 1
     print("%d controls, %d not ok" % (len(specs), bad))
     return 1 if bad else 0
